@@ -43,6 +43,28 @@ theorem bhAccumulate_is_minAccumulate (n k : Nat) (L : List Rat) (hk : L.length 
     rw [bhScan_is_minScan]
     rfl
 
+theorem zipWith_mul_comm (a b : List Rat) :
+    List.zipWith (fun u v => u * v) a b = List.zipWith (fun u v => u * v) b a := by
+  induction a generalizing b with
+  | nil => simp
+  | cons x xs ih =>
+    cases b with
+    | nil => simp
+    | cons y ys => simp only [List.zipWith_cons_cons, ih ys, mul_comm]
+
+/-- the same with the factors written the other way round (`values * steps`) -/
+theorem bhAccumulate_is_minAccumulate' (n k : Nat) (L : List Rat) (hk : L.length = k) :
+    bhAccumulate n L = NpBh.minAccumulate (List.zipWith (fun u v => u * v) L (steps n k)) := by
+  rw [zipWith_mul_comm]
+  exact bhAccumulate_is_minAccumulate n k L hk
+
+/-- `(range n).map (p[·])` is `p` -/
+theorem take_range (p : List Rat) : (List.range p.length).map (fun i => p.getD i 0) = p := by
+  apply List.ext_getElem
+  · simp
+  · intro i h1 h2
+    simp [List.getD_eq_getElem?_getD, List.getElem?_eq_getElem h2]
+
 /-- `p[by_descend]` are the sorted values -/
 theorem take_bhDescending (p : List Rat) :
     Np.take p ((bhDescending p).map (·.2)) = (bhDescending p).map (·.1) := by
